@@ -127,6 +127,26 @@ def check_case(ctx, case):
             views['rebuilt from describe()'] = [float(reb(h)) for h in grid]
             # documented meaning of parameters: range, sill, (shape), nugget of the model function
             views['model(*parameters)'] = [float(getattr(models, model)(h, *[float(p) for p in params])) for h in grid]
+    if '+' in model:
+        # parameters of a sum: [range, sill, (shape), nugget] per component - the function must be the sum
+        # of the components evaluated with exactly these numbers
+        names = model.split('+')
+        ps = [float(p) for p in params]
+        chunks, k = [], 0
+        for nme in names:
+            w = 4 if nme in ('stable', 'matern') else 3
+            chunks.append((nme, ps[k:k + w]))
+            k += w
+        if k == len(ps):
+            try:
+                with quiet():
+                    views['sum of components(*parameters)'] = [
+                        math.fsum(float(getattr(models, nme)(h, *c)) for nme, c in chunks) for h in grid]
+            except ZeroDivisionError:
+                ctx.count('sum_component_degenerate')   # a component with range / shape 0 (numba 1/0)
+        else:
+            ctx.violation('parameters-length', 'parameters %r do not split into the components of %s' % (ps, model), case)
+            return
     ref = views['fitted_model']
     scale = max(1e-12, max(abs(v) for v in ref))
     for name, vals in views.items():
